@@ -92,6 +92,32 @@ theorem gps_raw_roundtrip (w : Nat) (hw : 0 < w) (n : Int) (h : signedInRange w 
     toSigned w (fromSigned w n) = n ∧ fromSigned w n < 2 ^ w :=
   ⟨toSigned_fromSigned w n hw h, fromSigned_lt w n⟩
 
+/-! ## relations among the fields do not matter (input class of the differential run, round 4)
+
+`flc_dec_enc` quantifies over all in-range field tuples, hence also over those whose fields satisfy arithmetic relations
+among each other — met by independent sampling with probability 2⁻ʷ per relation and therefore CONSTRUCTED by the
+differential run (`relation_cases` in `harness/props/c03.py`).  Spelled out for the unit-to-unit voice channel user LC:
+the check field and the service options may be ANY functions of the two addresses. -/
+
+/-- Unit-to-unit voice channel user: target and source come back in the order given whatever the check field `g tgt src`
+and the service options `s tgt src` are as functions of the addresses (e.g. check field = target xor source, options
+octet = low octet of target + source). -/
+theorem flc_uu_relations (pf : Bool) (fid : Nat) (g : Nat → Nat → Bits) (s : Nat → Nat → ServiceOptions) (tgt src : Nat)
+    (hfid : eFeatureSetIDs.defined fid = true) (hg : (g tgt src).length = 24 ∨ (g tgt src).length = 5)
+    (hs : (s tgt src).WF) (ht : tgt < 2 ^ 24) (hsrc : src < 2 ^ 24) :
+    FullLc.dec (FullLc.enc ⟨pf, fid, g tgt src, .unitToUnit (s tgt src) tgt src⟩)
+      = .ok ⟨pf, fid, g tgt src, .unitToUnit (s tgt src) tgt src⟩ :=
+  FullLc.dec_enc _ ⟨hfid, hg, hs, ht, hsrc⟩
+
+/-- an instance with both relations at once: check field = target xor source (0x2345a7 ^^^ 0x61b2c9 = 0x42f76e), service
+options octet = (target + source) mod 256 = 0x70; the serialisation is `03 00 70 2345a7 61b2c9 42f76e` and decodes back -/
+example : FullLc.enc ⟨false, 0, natToBits 24 (0x2345a7 ^^^ 0x61b2c9), .unitToUnit ⟨false, true, [true, true], false, false, 0⟩ 0x2345a7 0x61b2c9⟩
+      = natToBits 96 0x0300702345a761b2c942f76e ∧
+    (⟨false, true, [true, true], false, false, 0⟩ : ServiceOptions).enc = natToBits 8 ((0x2345a7 + 0x61b2c9) % 256) ∧
+    (FullLc.dec (natToBits 96 0x0300702345a761b2c942f76e)).toOption
+      = some ⟨false, 0, natToBits 24 0x42f76e, .unitToUnit ⟨false, true, [true, true], false, false, 0⟩ 0x2345a7 0x61b2c9⟩ := by
+  decide +kernel
+
 /-! ## non-vacuity -/
 
 /-- a response header with the response-requested bit set (the bit the encoder used to drop) -/
